@@ -91,6 +91,10 @@ claim("C11", "Static race freedom under the documented contract: the transitive 
       "Latency ('by that deadline'), fairness and races inside net.Conn implementations are NOT decided.",
       NOTE, "field-effect partition (mod/ref) + lockset + one-write-per-section ordering analysis (go/ssa)", "DESIGN.md §4 C11")
 
+claim("C07", "Every index/slice/make/division/array-conversion/unchecked-assertion/explicit-panic site and every big-endian accessor call in the 71 functions reachable from network input is discharged on every enumerated path by an interval + relational prover (branch literals, counting-loop and counter-pair invariants, transitivity through recorded facts, listed library length facts); "
+      "every loop gets a progress argument (counter towards an invariant bound, range, strictly shrinking string cursor through suffix summaries proved coinductively, or consumed input / guard already false); allocation sizes never derive from claimed lengths or decoded integers. Found and fixed defect F3. One site is discharged by a reviewed table entry (flate.Resetter assertion). Nil dereferences and callee internals are NOT decided.",
+      NOTE, "path-sensitive interval/relational bounds analysis with loop invariants + termination (progress) analysis on go/ssa", "DESIGN.md §4 C07")
+
 REASON_NOT_BUILT = "rules for this property are not built yet in this revision (see DESIGN.md §4 for the planned static rules); nothing is claimed"
 
 def main():
